@@ -3,6 +3,7 @@
 package smt
 
 import (
+	"sync/atomic"
 	"fmt"
 	"math"
 	"math/bits"
@@ -121,6 +122,16 @@ type key struct {
 	n    int
 }
 
+// Abort is set by the driver's memory watchdog: term construction then panics with ResourceError, which the
+// driver reports as an inconclusive harness (never as success).
+var Abort atomic.Bool
+
+type ResourceError struct{}
+
+func (ResourceError) Error() string {
+	return "resource bound: encoder memory limit reached (harness bounds too large for this machine); nothing is claimed for this harness"
+}
+
 var table = map[key]*Term{}
 var nextID = 1
 var NumTerms = 0
@@ -142,6 +153,9 @@ func mk(op Op, s Sort, v uint64, name string, args ...*Term) *Term {
 	}
 	if t, ok := table[k]; ok {
 		return t
+	}
+	if nextID&0x3fff == 0 && Abort.Load() {
+		panic(ResourceError{})
 	}
 	t := &Term{ID: nextID, Op: op, S: s, A: append([]*Term(nil), args...), V: v, Name: name}
 	nextID++
